@@ -46,7 +46,47 @@ pub fn exec_job(
     run::run(spec, refc, pool, job.log, job.want_spec, job.want_trace)
 }
 
+/// Re-exec this worker with address-space randomisation switched off, so that heap
+/// addresses — and with them the probe sequences of address-keyed hash maps inside the
+/// library, which the dense build sees as basic-block edges — are the same in every
+/// execution of the same batch. Best effort: if it cannot be done the worker runs as it is.
+fn disable_aslr_and_reexec() {
+    const ADDR_NO_RANDOMIZE: libc::c_ulong = 0x0040000;
+    if std::env::var_os("SIM_NOASLR").is_some() {
+        return;
+    }
+    unsafe {
+        let cur = libc::personality(0xffff_ffff);
+        if cur == -1 {
+            return;
+        }
+        if (cur as libc::c_ulong) & ADDR_NO_RANDOMIZE != 0 {
+            return;
+        }
+        if libc::personality(cur as libc::c_ulong | ADDR_NO_RANDOMIZE) == -1 {
+            return;
+        }
+    }
+    use std::os::unix::process::CommandExt;
+    let exe = match std::env::current_exe() {
+        Ok(e) => e,
+        Err(_) => return,
+    };
+    let args: Vec<String> = std::env::args().skip(1).collect();
+    // exec only returns on failure
+    let _ = std::process::Command::new(exe)
+        .args(args)
+        .env("SIM_NOASLR", "1")
+        // no per-thread malloc cache: a chunk freed by another thread than the one that
+        // allocated it goes back to its own arena instead of into the freeing thread's
+        // cache, so the addresses a caller thread gets do not depend on what the driver
+        // thread allocated (whose sizes vary with timing and with reference-lane state)
+        .env("GLIBC_TUNABLES", "glibc.malloc.tcache_count=0")
+        .exec();
+}
+
 pub fn worker_main(sock: &str) -> ! {
+    disable_aslr_and_reexec();
     setup_process();
     let refc = match RefClient::connect(sock) {
         Ok(c) => Arc::new(Mutex::new(c)),
